@@ -6,8 +6,7 @@ P=$1; N=$2; W=/tmp/mut_$P; O=$W/OUT/$N
 export GOFLAGS=-mod=mod GOPROXY=off
 cd $W || exit 2
 git checkout -q -- . ; git clean -fdq -e OUT
-dp=$(head -1 $O/demo_path.txt | tr -d '`' | awk '{print $1}')
-case "$dp" in *_test.go) ;; *) dp=$(grep -o '[a-zA-Z0-9_/.]*_test\.go' $O/demo_path.txt | head -1);; esac
+dp=$(grep -o '\(x\|app\|tests\|testutil\)/[a-zA-Z0-9_/.]*_test\.go' $O/demo_path.txt | head -1)
 pkg=./$(dirname $dp)
 cp $O/demo_test.go $dp
 name=$(grep -o 'func Test[A-Za-z0-9_]*' $dp | head -1 | sed 's/func //')
